@@ -351,6 +351,39 @@ func eqStz(a, b stz, withSpace bool) bool {
 	return a == b
 }
 
+// typeEdgeCase (round E, review B C13-2): values whose type field is NOT one of the defined
+// constants are outside the property, but what the two encoding paths do with them is behaviour
+// the model states (IQ: the marshaller prints "get" for "", StartElement prints type=""; message:
+// both paths normalise to "normal"; presence: neither does).  Differential lines only, no oracle.
+func (c *ctxT) typeEdgeCase(x stz) {
+	r := c.r
+	v := x.value()
+	line := fmt.Sprintf("start %s %s", x.kind, x.fields())
+	st := startOf(v)
+	r.Line(line, common.EncToks(common.SortedAttrs([]xml.Token{st})))
+	r.Case(line, true, "type-edge/"+x.kind)
+	c.rnewLine(x.kind, st)
+	mb, merr := xml.Marshal(v)
+	if merr != nil {
+		return
+	}
+	mt, terr := common.Tokenize(mb)
+	if terr != nil || len(mt) == 0 {
+		return
+	}
+	if ms, ok := mt[0].(xml.StartElement); ok {
+		var as []xml.Attr
+		for _, a := range ms.Attr {
+			if !(a.Name.Space == "xmlns" || (a.Name.Space == "" && a.Name.Local == "xmlns")) {
+				as = append(as, a)
+			}
+		}
+		ms.Attr = as
+		r.Line(fmt.Sprintf("mstart %s %s", x.kind, x.fields()), common.EncToks(common.SortedAttrs([]xml.Token{ms})))
+		c.rnewLine(x.kind, ms)
+	}
+}
+
 // stanzaCase: every check for one IQ/message/presence value.
 func (c *ctxT) stanzaCase(x stz, payload []xml.Token, rnd *common.Rand) {
 	r := c.r
@@ -1098,6 +1131,10 @@ func Run(r *common.Run) error {
 	c.errCase(serr{by: "a@example.net", typ: "wait", cond: "gone", texts: [][2]string{{"", "l1\r\nl2"}, {"de", "ü<&>"}}}, nil, rnd)
 	for _, k := range []string{"iq", "message", "presence"} {
 		c.stanzaCase(stz{kind: k, typ: map[string]string{"iq": "get", "message": "normal", "presence": ""}[k]}, nil, rnd)
+		for _, t := range []string{"", "bogus", "GET", "Chat", "Error", " get", "result "} {
+			c.typeEdgeCase(stz{kind: k, id: "i1", to: "a@example.net", typ: t})
+			c.typeEdgeCase(stz{kind: k, typ: t})
+		}
 	}
 	// exhaustive over kinds x types x which optional fields are set
 	for _, k := range []string{"iq", "message", "presence"} {
